@@ -1,4 +1,5 @@
 import JsightVerif.Proofs.StackSafe
+import JsightVerif.Proofs.Progress
 import JsightVerif.Model.Project
 /-
   The scanning stage of a whole project (Model/Project.lean `Core.run`: the core's loop over lexemes
@@ -21,9 +22,12 @@ section
 variable (inputs : List UInt8) (reachAt : St → List (RKey St)) (ht : TableOk Gen.prog inputs reachAt)
   (hroot : (reachAt .stateRoot).contains ([], [], 0, true, [], 0, false) = true)
 
+/-- covered, with byte-loop potential at most `4·|file| + 11` (below the fuel `Core.run` gives `Next`) -/
+def GoodF (env : Env) (s : Sc St) : Prop := ∃ B, GoodP env reachAt (4 * env.size + 11) B s
+
 /-- every scanner of the project is in a covered state -/
 def ScansGood (c : Core) : Prop :=
-  Good c.current.env reachAt c.current.sc ∧ ∀ p ∈ c.suspended, Good p.1.env reachAt p.1.sc
+  GoodF reachAt c.current.env c.current.sc ∧ ∀ p ∈ c.suspended, GoodF reachAt p.1.env p.1.sc
 
 /-- the crash sites of the scanning stage that are excluded here: all but one -/
 def ScanStagePanic (site : String) : Prop := site ≠ "processBody: currentDirective is nil"
@@ -36,12 +40,34 @@ def NoScanPanic : Except PFault Core → Prop
   | .error (.panic site) => ¬ ScanStagePanic site
   | _ => True
 
-theorem scanFault_not_panic (c : Core) (f : Fault) (h : ¬ Crash f) : ∀ site, scanFault c f ≠ .panic site := by
+theorem scanFault_not_panic (c : Core) (f : Fault) (h : ¬ Crash f) (hf : f ≠ .fuel) : ∀ site, scanFault c f ≠ .panic site := by
   intro site
   cases f with
   | err m i => simp [scanFault]
   | panic s => exact absurd trivial h
-  | fuel => simp [scanFault]
+  | fuel => exact absurd rfl hf
+
+include ht in
+/-- one call of `Next` as the core makes it (fuel `scanFuel`): safe, inside the file, in order, and not out of fuel -/
+theorem next_both (env : Env) (s : Sc St) (hF : GoodF reachAt env s) :
+    match next env Gen.prog (scanFuel env) s with
+    | .error f => ¬ Crash f ∧ f ≠ .fuel
+    | .ok (lex, s') => GoodF reachAt env s' ∧ (∀ l, lex = some l → WFLex env.size l ∧ LexPh s.ph s'.ph l) ∧
+        (lex = none → s'.ph = s.ph) := by
+  obtain ⟨B, hP⟩ := hF
+  have h1 := next_sound env Gen.prog inputs reachAt ht (scanFuel env) s hP.good
+  have h2 := next_prog env Gen.prog inputs reachAt ht (scanFuel env) (4 * env.size + 11) B s hP (by simp only [scanFuel]; omega)
+  revert h1 h2
+  cases next env Gen.prog (scanFuel env) s with
+  | error f => intro h1 h2; exact ⟨h1, h2⟩
+  | ok r =>
+    obtain ⟨lex, s'⟩ := r
+    cases lex with
+    | none => intro h1 h2; exact ⟨⟨B, h2⟩, h1.2.1, h1.2.2⟩
+    | some l =>
+      intro h1 h2
+      obtain ⟨B', _, hg⟩ := h2
+      exact ⟨⟨B', hg⟩, h1.2.1, h1.2.2⟩
 
 theorem tracerFor_scans (c : Core) : c.tracerFor.2.current = c.current ∧ c.tracerFor.2.suspended = c.suspended := by
   unfold Core.tracerFor
@@ -142,7 +168,7 @@ include ht hroot in
 theorem processInclude_safe (c : Core) (fsys : FileSys) (kw : Lexeme) (hJ : ScansGood reachAt c) :
     (∀ site, c.processInclude fsys kw ≠ .error (.panic site)) ∧
     (∀ c', c.processInclude fsys kw = .ok c' → ScansGood reachAt c' ∧ CoreRel c') := by
-  have hn := next_sound c.current.env Gen.prog inputs reachAt ht (scanFuel c.current.env) c.current.sc hJ.1
+  have hn := next_both inputs reachAt ht c.current.env c.current.sc hJ.1
   unfold Core.processInclude
   by_cases hb : c.banned.contains Kind.Include = true
   · simp only [hb, if_true]
@@ -152,7 +178,7 @@ theorem processInclude_safe (c : Core) (fsys : FileSys) (kw : Lexeme) (hJ : Scan
     cases hnx : next c.current.env Gen.prog (scanFuel c.current.env) c.current.sc with
     | error f =>
       intro hn
-      exact ⟨fun site h => (by simp only [Except.error.injEq] at h; exact scanFault_not_panic c f hn site h), fun c' h => (by cases h)⟩
+      exact ⟨fun site h => (by simp only [Except.error.injEq] at h; exact scanFault_not_panic c f hn.1 hn.2 site h), fun c' h => (by cases h)⟩
     | ok r =>
       obtain ⟨param, sc'⟩ := r
       rintro ⟨hg', hwf, _⟩
@@ -176,7 +202,7 @@ theorem processInclude_safe (c : Core) (fsys : FileSys) (kw : Lexeme) (hJ : Scan
             all_goals first
               | (cases h; done)
               | (cases h
-                 refine ⟨⟨good_init _ reachAt .stateRoot hroot, ?_⟩, fun hp => by simp [Sc.init] at hp⟩
+                 refine ⟨⟨⟨_, goodP_init _ reachAt .stateRoot hroot⟩, ?_⟩, fun hp => by simp [Sc.init] at hp⟩
                  intro q hq
                  rcases List.mem_cons.mp hq with rfl | hq
                  · exact hg'
@@ -212,14 +238,14 @@ theorem run_safe (fsys : FileSys) (n : Nat) : ∀ (c : Core), ScansGood reachAt 
   | zero => intro c _ _ site h; simp [Core.run] at h
   | succ n ih =>
     intro c hJ hR site h
-    have hn := next_sound c.current.env Gen.prog inputs reachAt ht (scanFuel c.current.env) c.current.sc hJ.1
+    have hn := next_both inputs reachAt ht c.current.env c.current.sc hJ.1
     simp only [Core.run] at h
     revert hn h
     cases hnx : next c.current.env Gen.prog (scanFuel c.current.env) c.current.sc with
     | error f =>
       intro hn h
       simp only [Except.error.injEq] at h
-      exact absurd h (scanFault_not_panic c f hn site)
+      exact absurd h (scanFault_not_panic c f hn.1 hn.2 site)
     | ok r =>
       obtain ⟨lex, sc'⟩ := r
       rintro ⟨hg', hwf, hnone⟩ h
@@ -293,7 +319,7 @@ theorem run_safe (fsys : FileSys) (n : Nat) : ∀ (c : Core), ScansGood reachAt 
           · cases h
           · rename_i sfs at_ rest hsus
             refine ih _ ?_ ?_ site h
-            · have hmem : ∀ p ∈ c2.suspended, Good p.1.env reachAt p.1.sc := by
+            · have hmem : ∀ p ∈ c2.suspended, GoodF reachAt p.1.env p.1.sc := by
                 rw [hsame.2]; exact hJ.2
               refine ⟨hmem (sfs, at_) (by rw [hsus]; simp), ?_⟩
               intro p hp
